@@ -59,7 +59,7 @@ class C06(Check):
     rule = (
         "cases: (a) the complete product of the per-member alphabet {absent,null,true,false,0,1,-1,1.0,1.5,'','2.0','x',[],[1],{},"
         "{'a':1},2.0,2} over jsonrpc/id/method/params (requests: 104976), jsonrpc/id/result/error with error over the alphabet plus 12 "
-        "error objects (responses: 174960), code/message/data (errors: 5832) and jsonrpc/id/result/error of an object handed to BatchResponse.from_json (batch-level errors: 17496), enumerated in both tiers; (b) Hypothesis-generated "
+        "error objects (responses: 174960), code/message/data (errors: 5832) and jsonrpc/id/result/error of an object handed to BatchResponse.from_json (batch-level errors: 17496), enumerated in both tiers, plus valid two-element batches with one alphabet element spliced in at every position; (b) Hypothesis-generated "
         "arbitrary JSON values, messages with nested payloads and extra members, batches of 0..3 elements, batch-level error objects; "
         "(c) append/extend histories over the id alphabet {null,0,1,2,'1',''}. Oracle: independent validity predicates "
         "(pbt/wellformed.py): valid => object with jeq-equal members, invalid => DeserializationError, duplicate ids => "
@@ -95,6 +95,15 @@ class C06(Check):
                 yield {'kind': 'response', 'value': obj(jsonrpc=j, id=i, result=r, error=e)}
         for c, m, d in itertools.product(ALPHA, repeat=3):
             yield {'kind': 'error', 'value': obj(code=c, message=m, data=d)}
+        # arrays: one element from the alphabet (null, scalars, containers) spliced into an otherwise valid batch at every position
+        good_req = [{'jsonrpc': '2.0', 'id': 1, 'method': 'm'}, {'jsonrpc': '2.0', 'method': 'n', 'params': [1]}]
+        good_resp = [{'jsonrpc': '2.0', 'id': 1, 'result': 0}, {'jsonrpc': '2.0', 'id': 2, 'error': {'code': 5, 'message': 'e'}}]
+        for x in ALPHA:
+            if isinstance(x, str) and x == ABSENT:
+                continue
+            for pos in range(3):
+                yield {'kind': 'batch_request', 'value': good_req[:pos] + [x] + good_req[pos:]}
+                yield {'kind': 'batch_response', 'value': good_resp[:pos] + [x] + good_resp[pos:]}
         # an OBJECT where a response array is expected: only a well-formed batch-level error (version, null id, error, no result) may pass
         for j, i in itertools.product(ALPHA, repeat=2):
             for r in (ABSENT, None, 0):
